@@ -65,7 +65,7 @@ THEOREMS = [
         "newmark_converges_energy_second_order "
         # Props/C17Nonlin.lean: nonlinear terms, call sequences
         "newmark_nonlin_is_documented nonlin_zero_is_linear nonlin_z_is_callback_output def_nonlin_call_sequence "
-        "def_nonlin_copies_at_call "
+        "def_nonlin_copies_at_call nonlin_rf_nonrf_part_is_run nonlin_rf_placement_irrelevant "
         # Props/C17Opt.lean: options and entry points
         "mNone_is_identity_mass mNone_scalar_coefficients rf_rows_static_full cdf_order0_is_order1_with_held_force "
         "cdf_accel_eom cdf_f2x_is_step_sensitivity cdf_f2x_matrix "
@@ -114,8 +114,8 @@ ASSUMPTIONS = [
     "changing it WITHOUT calling def_nonlin again is not exercised (undocumented either way)",
     "nt >= 2 for SolveNewmark (nt = 1 raises IndexError in the code; modelled as an error, compared exactly)",
     "energy oracle: symmetric positive semidefinite M, K and B (Q^T diag Q with orthogonal Q), zero force",
-    "nonlinear terms together with an rf partition are exercised by four pinned cases with index-based callbacks (the docstring "
-    "advises against the combination); the oracle judges them by the documented start-up on the non-rf rows",
+    "nonlinear terms together with an rf partition are exercised by four pinned cases with index-based callbacks; the oracle "
+    "judges leading and trailing rf rows by the documented start-up on the non-rf rows and by moving the rf row to the other end",
     "proved-bound oracle: scalar systems with m in [0.5, 2], zeta <= 0.3, closed-form solution; h = T/50, T/200",
 ]
 PARTIAL = (
@@ -134,8 +134,9 @@ PARTIAL = (
     "with four bounded derivatives is a hypothesis (existence not proved); (3) nonlinear terms: the recurrence with the lagged N "
     "is proved for arbitrary callbacks (newmark_nonlin_is_documented) and for arbitrary call sequences on one object "
     "(def_nonlin_call_sequence); CONVERGENCE with nonlinear terms is not proved (the explicit term makes the scheme conditionally "
-    "stable) and not measured; with an rf partition the callbacks receive the full-size array at step 0 and the non-rf rows "
-    "afterwards - modelled as the code does, reported as a finding by the oracle; (4) SolveCDF: per-step force error O(h^2) "
+    "stable) and not measured; with an rf partition (any placement) the non-rf part is `run` on the non-rf partition "
+    "(nonlin_rf_nonrf_part_is_run, nonlin_rf_placement_irrelevant; finding F63, repaired in /repo 62d98b6, stays as a regression "
+    "guard of the oracle); (4) SolveCDF: per-step force error O(h^2) "
     "(cdf_local_error) and the error recursion (cdf_error_recursion) are proved, global second order only CONDITIONALLY "
     "(cdf_converges_partial: hypotheses = a stability constant of the homogeneous step in some seminorm and one-step residuals "
     "<= C h^3); that the O(h^2) force error gives an O(h^3) residual needs the Duhamel kernel of the exact uncoupled step (C01's "
@@ -184,7 +185,8 @@ MANIFEST = {
     "/ `_get_nonlin` / `sol.z` are in the model (`defNonlin`, `getNonlin`, `zOut`), `newmark_nonlin_is_documented` (N_{n+1} evaluated "
     "explicitly on [u_{n+1}, ..., u_-1], pre-multiplication undone by A), `nonlin_zero_is_linear`, `nonlin_z_is_callback_output`, call "
     "sequences on one object (`def_nonlin_call_sequence`, `def_nonlin_copies_at_call`: values at the time of the call, no cache by "
-    "object identity); options: `mNone_is_identity_mass`, `mNone_scalar_coefficients`, `rf_rows_static_full`, "
+    "object identity), with an rf partition in ANY placement the non-rf part is the same `run` with the callbacks on the non-rf rows "
+    "at every step (`nonlin_rf_nonrf_part_is_run`, `nonlin_rf_placement_irrelevant`; F63 repaired in /repo 62d98b6); options: `mNone_is_identity_mass`, `mNone_scalar_coefficients`, `rf_rows_static_full`, "
     "`cdf_order0_is_order1_with_held_force`, `cdf_accel_eom` (full damping, with mass and m = None), `cdf_f2x_is_step_sensitivity`, "
     "`cdf_f2x_matrix`; SolveCDF: `cdf_run_is_sequence`, `cdf_local_error` (force error <= (M_P + c_od M3) h^2 per step), "
     "`cdf_error_recursion`, `cdf_converges_partial` (stability + O(h^3) residual => T e^{cT} C h^2), `cdf_stable_two_dof` (the lag is "
@@ -209,6 +211,9 @@ MANIFEST = {
 }
 
 TOL = 1e-9
+# found by this check, repaired in /repo (fix: commit 62d98b6): with an rf partition `_init_dva` handed the nonlinear-force
+# functions the full-size array at step 0, the loop the non-rf rows; kept as a regression guard (oracle_nonlin_rf)
+FIXED_F63 = "newmark-nonlin-with-leading-rf-callback-sees-full-size-array-at-step-0"
 KINDS = {0: "cubic", 1: "gap", 2: "nasvel", 3: "index", 4: "pair"}
 
 warnings.filterwarnings("ignore")
@@ -321,8 +326,7 @@ def gen_newmark(rng, forced=None):
         spec.update(m=None if mnone else m.tolist(), b=b.tolist(), k=k.tolist())
     terms = []
     if terms_on and rf and len(rf) < n:
-        # nonlinear terms WITH an rf partition (the docstring advises against it): transforms and callback indices are in
-        # the numbering of the non-rf rows; index-based callbacks only
+        # nonlinear terms WITH an rf partition: transforms and callback indices are in the numbering of the non-rf rows
         nn_ = n - len(rf)
         nonrf_ = [i for i in range(n) if i not in rf]
         for _ in range(int(rng.integers(1, 3))):
@@ -817,8 +821,7 @@ def _newmark_cases(ctx):
         {"quasistatic": True, "form": "diag", "mnone": False, "terms": False, "rigid": False, "nt": 12},
         {"quasistatic": True, "form": "full", "mnone": False, "terms": False, "rigid": False},
     ] + [{"terms": True, "kind": kk, "form": f} for kk in range(5) for f in ("diag", "full")] + [
-        # nonlinear terms together with an rf partition: the model hands the callbacks the full-size rows at step 0 and the
-        # non-rf rows afterwards, as the code does
+        # nonlinear terms together with an rf partition: the callbacks see the non-rf rows at every step (fix 62d98b6, F63)
         {"terms": True, "rf_terms": True, "rf": True, "n": 3, "form": f, "mnone": False, "massless": False, "rigid": False,
          "quasistatic": False} for f in ("diag", "full", "diag", "full")]
     for p in pins:
@@ -1469,7 +1472,7 @@ def oracle_newmark(ctx, spec, impl=None, report=None, suffix=""):
     if not nonrf:
         return
     if rf and spec.get("terms"):
-        # nonlinear terms together with an rf partition: judged by oracle_nonlin_rf (the callbacks see another array at step 0)
+        # nonlinear terms together with an rf partition: judged by oracle_nonlin_rf (regression guard for F63)
         return
     ix = np.ix_(nonrf, nonrf)
     M, B, K = M[ix], B[ix], K[ix]
@@ -2057,9 +2060,10 @@ def oracle_cdf_two_dof(ctx, spec):
 
 
 def oracle_nonlin_rf(ctx, spec):
-    """Nonlinear terms together with an rf partition: the documented start-up A u_1 = (F_1 + F_0' + F_-1)/3 + N_0 + A1 u_0 +
-    A0 u_-1 with N_0 = T func(D, 0, h) evaluated on the SAME array (rows of the non-rf equations) that the callbacks see at
-    every later step."""
+    """Regression guard for F63 (repaired in /repo 62d98b6).  Nonlinear terms together with an rf partition: the documented
+    start-up A u_1 = (F_1 + F_0' + F_-1)/3 + N_0 + A1 u_0 + A0 u_-1 with N_0 = T func(D, 0, h) evaluated on the SAME array
+    (rows of the non-rf equations) that the callbacks see at every later step, and the non-rf solution must not depend on
+    where the rf equation sits."""
     from pyyeti import ode
 
     m, b, k = (np.array(spec[x], float) for x in "mbk")
@@ -2092,10 +2096,22 @@ def oracle_nonlin_rf(ctx, spec):
     res = A * D[:, 1] - ((F[nonrf, 1] + F0 + Fm) / 3 + N0 + A1 * d0[nonrf] + A0 * um)
     sc = max(float(np.abs(A * D[:, 1]).max()), float(np.abs(N0).max()), float(np.abs(F[nonrf]).max()), 1e-300)
     if not np.abs(res).max() <= 2e-8 * sc:
-        lead = "leading" if min(rf) < max(nonrf) else "trailing"
-        ctx.fail("newmark-nonlin-with-%s-rf-callback-sees-full-size-array-at-step-0" % lead,
-                 "with an rf partition the callbacks get the full-size array d at step 0 and d[nonrf] afterwards: N_0 is evaluated on another row than N_j",
+        fam = FIXED_F63 if min(rf) < max(nonrf) else FIXED_F63.replace("leading", "trailing")
+        ctx.fail(fam, "with an rf partition the callbacks get the full-size array d at step 0 and d[nonrf] afterwards: N_0 is evaluated on another row than N_j",
                  spec, {"residual": float(np.abs(res).max()), "array shapes seen by the callback": shapes[:3]}, "<= 2e-8 * %.3e" % sc)
+        return
+    # `nonlin_rf_placement_irrelevant` on the API: the same physical system with the rf row moved to the other end gives the
+    # same non-rf solution
+    perm = nonrf + rf if min(rf) < max(nonrf) else rf + nonrf
+    rf2 = [perm.index(i) for i in rf]
+    ts2 = ode.SolveNewmark(m[perm], b[perm], k[perm], h, rf=rf2)
+    ts2.def_nonlin({"cubic": (func, T)})
+    sol2 = ts2.tsolve(F[perm], d0[perm], v0[perm])
+    nonrf2 = [perm.index(i) for i in nonrf]
+    dif = float(np.abs(sol2.d[nonrf2] - D).max())
+    if not dif <= 1e-9 * max(float(np.abs(D).max()), 1e-300):
+        ctx.fail("newmark-nonlin-rf-placement-changes-the-non-rf-solution", "moving the rf equation to the other end of the DOF order changes the solution of the other equations",
+                 spec, dif, "<= 1e-9 * %.3e" % float(np.abs(D).max()))
 
 
 def gen_nonlin_rf(rng, leading):
